@@ -228,10 +228,22 @@ func analyse(sc Scenario, out *outcome, drv *lib.Driver) *caseResult {
 			gotG = append(gotG, e)
 		}
 	}
+	var wantG []entry
+	for _, run := range revRuns {
+		if len(run) > 0 {
+			first, last := run[0], run[len(run)-1]
+			wantG = append(wantG, entry{Num: last.Num, Hash: last.Hash, ENum: first.Num, EHash: first.Hash})
+		}
+	}
+	// every subscriber that came and went: exactly the notifications of its subscription interval
+	nv := len(cr.violations)
+	checkExtras(out.extra, stores, wantG, viol, cr.hits)
 	if out.drainLost {
-		viol("feed-notification-missing", "a new-head or reorg notification owed for a stored block was not received")
+		if len(cr.violations) == nv || len(gotN) < len(stores) || len(gotG) < len(wantG) {
+			viol("feed-notification-missing", "a new-head or reorg notification owed for a stored block was not received")
+		}
 	} else {
-		// notifications exact
+		// notifications exact (the two subscribers that live for the whole run)
 		if len(gotN) != len(stores) {
 			viol("newhead-count-differs-from-stored-blocks", fmt.Sprintf("%d new-head notifications for %d stored blocks", len(gotN), len(stores)))
 		} else {
@@ -240,13 +252,6 @@ func analyse(sc Scenario, out *outcome, drv *lib.Driver) *caseResult {
 					viol("newhead-order-or-content-differs-from-storage-order", fmt.Sprintf("notification %d is block %d, stored block was %d", i, gotN[i].Num, stores[i].Num))
 					break
 				}
-			}
-		}
-		var wantG []entry
-		for _, run := range revRuns {
-			if len(run) > 0 {
-				first, last := run[0], run[len(run)-1]
-				wantG = append(wantG, entry{Num: last.Num, Hash: last.Hash, ENum: first.Num, EHash: first.Hash})
 			}
 		}
 		if len(wantG) != len(gotG) {
@@ -498,11 +503,16 @@ func staleSuccessor(before []entry, x entry) bool {
 func wrongNumAnswered(log []entry, id *ids, num uint64, hid int) bool {
 	seen := false
 	for _, e := range log {
-		if e.Kind == eServed && e.Req == num && e.Num != num {
-			seen = true
-		}
-		if e.Kind == eReverted && e.Num == num && id.of(&e.Hash) == hid && seen {
-			return true
+		switch e.Kind {
+		case eStored, eReverted, eJump:
+			if e.Kind == eReverted && e.Num == num && id.of(&e.Hash) == hid && seen {
+				return true
+			}
+			seen = false // only an answer given since the previous commit can have decided this revert
+		case eServed:
+			if e.Req == num && e.Num != num {
+				seen = true
+			}
 		}
 	}
 	return false
@@ -550,7 +560,7 @@ func raceScenario(seed uint64, dstNew bool) Scenario {
 	return Scenario{Kind: "race", Seed: seed, SrcNew: seed%2 == 0, DstNew: dstNew, Procs: procs, Prestore: pre, StartEpoch: 0,
 		Epochs:   []EpochSpec{{Add: pre + 1 + k}, {Depth: k, Add: r.Range(2, 6)}},
 		Triggers: []Trigger{{AfterServed: &held}},
-		Faults:   Faults{Rules: []Rule{{Height: n, Epoch: 0, Action: "fail"}, {Height: held, Epoch: 0, Action: "hold", UntilStores: 2}}}}
+		Faults:   Faults{Rules: []Rule{{Height: n, Epoch: 0, Action: "fail", Times: 400}, {Height: held, Epoch: 0, Action: "hold", UntilStores: 2}}}}
 }
 
 // wrongNumScenario: the source's chain became a shorter fork (A0..A(c-1), B_c); the node holds
@@ -634,6 +644,7 @@ func main() {
 		var rp struct {
 			Replay struct {
 				Scenario Scenario `json:"scenario"`
+				FeedOps  []feedOp `json:"feed_ops"`
 			} `json:"replay"`
 		}
 		if err == nil {
@@ -641,6 +652,14 @@ func main() {
 		}
 		if err != nil {
 			res.Note("cannot read replay: %v", err)
+			lib.Finish(f, res)
+		}
+		if len(rp.Replay.FeedOps) > 0 { // a deterministic feed.Feed operation sequence
+			res.Case("feed-replay", true)
+			if sig, what := feedSig(rp.Replay.FeedOps); sig != "" {
+				res.Violate(lib.Violation{Sig: sig, What: "feed.Feed: " + what,
+					Replay: map[string]any{"feed_ops": rp.Replay.FeedOps, "real": first(runFeedReal(rp.Replay.FeedOps)), "must_be": feedReference(rp.Replay.FeedOps)}})
+			}
 			lib.Finish(f, res)
 		}
 		for i := 0; i < 20; i++ { // schedules differ from run to run
@@ -765,6 +784,17 @@ func main() {
 		}
 		if cr.sc.Kind == "dynamic" {
 			res.Sample(6, map[string]any{"scenario": cr.sc, "commits": cr.hits["commit:stored"] + cr.hits["commit:reverted"]})
+		}
+	}
+	if f.Replay == "" {
+		drv, err := lib.StartDriver(f.Driver)
+		if err != nil {
+			res.Note("driver: %v", err)
+			drv = nil
+		}
+		checkFeeds(f, res, drv)
+		if drv != nil {
+			drv.Close()
 		}
 	}
 	if f.Thorough() && f.Replay == "" && os.Getenv("C06_CHILD") == "" {
